@@ -123,8 +123,8 @@ func escapeAll(s string) string {
 
 // ---- literal fallback: syntax that cannot form a construct is text. The
 // documents have no reference definition, so no bracketed label resolves, and
-// no bracket is followed by '(' or ':', so there is no inline link or
-// definition either; unmatched code fences, angle brackets that are no tag or
+// no bracket is followed by ':' or by a complete inline link tail, so there
+// is no inline link or definition either; unmatched code fences, angle brackets that are no tag or
 // autolink, ampersands that start no reference and lone delimiter runs
 // between spaces stay literal too. Every token's reading is fixed by the
 // spec whatever its neighbours are (tokens are separated by spaces).
@@ -134,6 +134,9 @@ var literalTokens = []string{
 	"&", "&amp", "&#;", "&#x;", "&#12345678;", "&#x1234567;", "&nosuch;", "&;", "&#a;",
 	"*", "**", "_", "***", "a_b", "a_b_c", "`", "``", "``` x", "\\a", "\\", "a\\",
 	"word", "foo", "é", "7", "x.y", "a/b",
+	// inline link tails that are no link whatever follows, a closing parenthesis
+	// included: a destination whose parentheses are not balanced pairs
+	"[a](b(c", "![a](b(c", "[a](b((c)", ")", ")",
 }
 
 func genLiteral(t *rapid.T) harness.Case {
